@@ -20,12 +20,20 @@ PROP = dict(
     level_text="Proof (part a): Lean theorem no_panic over all first-order expressions of the modelled operator fragment - the "
                "transliterated evaluator (tuple/set constructors with NewTuple's specialisation rules and the relation builder, arithmetic, "
                "comparison and subset operators, set operators, with/without, call, ++, >>, offset, count, <:, dot) never reaches a panic "
-               "site unless the expression has one of the decidable shapes of the open findings (pinned NewTuple assertions, relation bucket "
-               "collision), each with a machine-checked witness; termination is structural. Facts (part b): the per-function inventory of "
+               "site unless a node of the expression is applied to operands of one of the decidable shapes of the open findings (pinned NewTuple "
+               "assertions, relation-bucket collision), each with a machine-checked witness (run_no_panic also covers the order in which "
+               "the compiler folds constants); termination is structural. Facts (part b): the per-function inventory of "
                "panic(...) calls, unchecked type assertions and Must* calls regenerated from source equals the classified expected table. "
                "Part (c) - arbitrary source text, standard-library calls and hangs - is validated by fuzzing only, not proved: operator x "
                "operand-kind programs, safe stdlib calls, grammar-aware mutations and raw bytes, each case in a child process under a time, "
                "memory and stack limit.",
+    level_note="Proved (Lean, part a): only the modelled first-order operator fragment over data values - no function values, no "
+               "fractions, no holes, canonical representations assumed. Regenerated facts (part b): the panic-site inventory. NOT PROVED, "
+               "validated by fuzzing only (part c): arbitrary source text (wbnf parser, %%bind hook, compiler), the standard library, "
+               "patterns, function values, and the absence of hangs; each fuzzed case runs in a child process with a 10 s limit (40 s on "
+               "the one retry), 2 GiB GOMEMLIMIT, 8 GiB address space and a 256 MB goroutine stack. Open findings are reported as "
+               "KNOWN-FINDING lines: KF-pinned-panics, KF-setpattern-panic, KF-function-as-set, KF-relation-bucket, KF-deep-nesting, "
+               "KF-grammar-parse.",
     design_ref="DESIGN.md section 6, C10",
     watch=["rel.NewTuple", "rel.TupleBuilder.Finish", "rel.SetBuilder.Add", "rel.SetBuilder.Finish", "rel.relationBuilder.Add",
            "rel.GenericTuple.getBucket", "rel.newArithExpr", "rel.addValues", "rel.NewWithExpr", "rel.NewWithoutExpr", "rel.Call",
